@@ -123,6 +123,13 @@ func gen(g *vh.Gen) {
 	// the cap shrinks between runs: the next delivery evicts several messages at once
 	emit(0, []string{a(0, 1), a(0, 2), a(0, 3), a(0, 4), "C.2", a(0, 5), "R"})
 	emit(3, []string{a(1, 1), a(1, 2), a(1, 3), "X", "C.1", a(1, 4), "C.0", a(1, 5)})
+	// after a restart the first accesses to a mailbox are k overlapping reads (then a mutation, then the next restart)
+	g.Emit("conc", "0", pool, "250", "8", vh.I(g.N(4, 12)))
+	g.Emit("conc", "0", pool, "250", "3", vh.I(g.N(3, 12)))
+	g.Emit("conc", "3", pool, "40", "2", vh.I(g.N(3, 12)))
+	for i := 0; i < g.N(0, 20); i++ {
+		g.Emit("conc", vh.I([]int{0, 0, 5}[g.Intn(3)]), pool, vh.I(100+g.Intn(300)), vh.I(2+g.Intn(7)), "6")
+	}
 	// in-process reopen points at random positions
 	for i := 0; i < g.N(200, 5000); i++ {
 		s := &genState{g: g}
